@@ -93,7 +93,8 @@ CLAIMED = {
        "exact rationals, substitution sites in order) and oracles: purity by snapshots, inverse motions, scaled coordinates with atoms outside the cell, "
        "linspaceGen end points / straight line / nearest-image target by exact minimum image, rattleGen bounds for scalar/N/Nx3 amplitudes, Poisson-sphere "
        "minimum distances under periodic boundaries and contact distance to atoms, reseed reproducibility of every stochastic generator.",
-  note="PARTIAL: reseed reproducibility, the Poisson-sphere guarantee of the Bridson sampler and the periodic interpolation target are decided by run-twice / "
+  note="The periodic interpolation target is proved over the C03 lattice model (props/C16/periodic_interpolation.v: end points, nearest image, equal steps) and "
+       "tied by the squared travel of every atom. PARTIAL: reseed reproducibility and the Poisson-sphere guarantee of the Bridson sampler are decided by run-twice / "
        "exact-distance oracles only (no theorem about the sampler or its neighbour masks). ase.Atoms copying is exercised, not modelled. Translate.get(..., "
        "selection=...) is not used (keyword clash with AtomsProperty.get, F-16c noted in DESIGN); the instance-call form is. Three defects found by this check "
        "were repaired (88b4609, ea27770, 3e5dd31).",
